@@ -983,9 +983,11 @@ def udpRecv (w : World) (nasIdx : Nat) (pkt : Bytes) : World × UdpRes :=
         match w.udpPending with
         | none => (w, .dropped)
         | some o =>
+          -- the pre-allocated request object is now the one being processed
+          let w := { w with udpPending := none }
           let w := updRq w o fun r => { r with buf := some (pkt.take len), frm := some ci, created := w.now }
           let (w, ret) := radsrv w o
-          ({ w with udpPending := none }, .handled ret ci o)
+          (w, .handled ret ci o)
 
 /-- back at the top of the loop: the next request object is allocated before the blocking receive -/
 def udpLoopTop (w : World) : World :=
@@ -1009,6 +1011,9 @@ inductive Op
   | radput (ok : Bool)                  -- whether transmissions succeed from now on
   | oracle (rx : RxOracle) (rnds : List Bytes)   -- what regexec / RAND_bytes will answer next
   | waitbound (si : Nat)                -- the writer of server `si` computes how long it may sleep (thread start-up)
+  | udplisten                           -- the UDP listener starts: it allocates its first request object and blocks
+  | udpnas (ip : Bytes)                 -- a source address becomes known to the harness
+  | udpsend (nas : Nat) (pkt : Bytes)   -- a datagram from source `nas`: association handling, `radsrv`, next object allocated
 
 /-- one operation -/
 def step (w : World) : Op → World
@@ -1027,6 +1032,9 @@ def step (w : World) : Op → World
   | .radput ok => { w with radputOk := ok }
   | .oracle rx rnds => { w with rx := rx, rnds := rnds }
   | .waitbound si => (writerWaitBound w si).1
+  | .udplisten => udpLoopTop w
+  | .udpnas ip => { w with nas := w.nas ++ [ip] }
+  | .udpsend n pkt => udpLoopTop (udpRecv w n pkt).1
 
 
 end Rsp.World
